@@ -19,9 +19,32 @@ import (
 )
 
 var payloadKeys = []string{"done", "run-A", "run-B", "upd-A", "upd-B"}
+var payloadSizes = []string{"", "1k", "70k"}
+
+// padding: deterministic filler making the serialised status about 1 KiB / 70 KiB long
+// (one status = one line of the history file; 70 KiB is beyond every 64 KiB line buffer).
+func padding(size string) string {
+	n := 0
+	switch size {
+	case "1k":
+		n = 1024
+	case "70k":
+		n = 70 * 1024
+	}
+	if n == 0 {
+		return ""
+	}
+	const unit = " p=0123456789abcdef-\u00fc\"q\"" // multi-byte and escaped characters inside
+	var sb strings.Builder
+	for sb.Len() < n {
+		sb.WriteString(unit)
+	}
+	return sb.String()
+}
 
 // mkStatus: the status a caller records; a function of (request id, payload key).
 func mkStatus(id, payload string) *model.Status {
+	_, size := splitPayload(payload)
 	st, nst := scheduler.StatusSuccess, scheduler.NodeStatusSuccess
 	switch {
 	case strings.HasPrefix(payload, "run"):
@@ -39,7 +62,7 @@ func mkStatus(id, payload string) *model.Status {
 			Log: "/logs/" + id + "/s 1.log", StartedAt: "2000-03-01 00:00:00", FinishedAt: "-",
 			Status: nst, StatusText: nst.String(), Error: "line1\nline2 \\ \"x\""}},
 		StartedAt: "2000-03-01 00:00:00", FinishedAt: "-", Log: "/logs/" + id + ".log",
-		Params: payload + ` "x y" K=ü`,
+		Params: payload + ` "x y" K=ü` + padding(size),
 	}
 }
 
@@ -59,7 +82,16 @@ func payloadOf(st *model.Status) string {
 		return "?nil"
 	}
 	got := canon(st)
-	for _, p := range payloadKeys {
+	var cands []string
+	for _, sz := range payloadSizes {
+		if (len(got) > 60*1024) != (sz == "70k") {
+			continue // cannot match by length
+		}
+		for _, p := range payloadKeys {
+			cands = append(cands, withSize(p, sz))
+		}
+	}
+	for _, p := range cands {
 		k := st.RequestID + "\x00" + p
 		want, ok := canonOf[k]
 		if !ok {
@@ -158,7 +190,7 @@ func (w *World) apply(o Op, m *Model) (err error) {
 		if err = w.main.Open(w.path(o.D), t, o.R); err != nil {
 			return err
 		}
-		if err = w.main.Write(mkStatus(o.R, "done")); err != nil {
+		if err = w.main.Write(mkStatus(o.R, withSize("done", o.Size))); err != nil {
 			return err
 		}
 		err = w.main.Close()
@@ -171,14 +203,14 @@ func (w *World) apply(o Op, m *Model) (err error) {
 		if err = s.Open(w.path(o.D), t, o.R); err != nil {
 			return err
 		}
-		err = s.Write(mkStatus(o.R, "run-A"))
+		err = s.Write(mkStatus(o.R, withSize("run-A", o.Size)))
 		w.setMtime(o.D, t, o.R)
 		return err
 	case "write", "close":
 		d, r := m.findAny(o.R)
 		s := w.open[o.R]
 		if o.K == "write" {
-			err = s.Write(mkStatus(o.R, toggle(r.Last, "run-A", "run-B")))
+			err = s.Write(mkStatus(o.R, toggle(r.Last, "run-A", "run-B", o.Size)))
 		} else {
 			err = s.Close()
 			s.VerifC06Stop()
@@ -188,7 +220,7 @@ func (w *World) apply(o Op, m *Model) (err error) {
 		return err
 	case "update":
 		r := m.find(o.D, o.R)
-		return w.main.Update(w.path(o.D), o.R, mkStatus(o.R, toggle(r.Last, "upd-A", "upd-B")))
+		return w.main.Update(w.path(o.D), o.R, mkStatus(o.R, toggle(r.Last, "upd-A", "upd-B", o.Size)))
 	case "rename":
 		return w.main.Rename(w.path(o.D), w.path(o.To))
 	case "removeold":
